@@ -362,7 +362,7 @@ def run_replay(ctx):
     p = json.load(open(ctx.replay))
     tab = table(ctx)
     rec = p["record"]
-    tag = rec["tag"]
+    tag = rec["tag"].replace("~pre", "")
     beh = os.path.join(ctx.scratch, "replay.ndjson")
     m = re.match(r"^(.*)/([a-z0-9]+)(?::([a-z]+)(\d+))?$", tag)
     if rec["src"] == "ks" or not m:
